@@ -273,6 +273,9 @@ func runC19(t *Trace, r *Rng, tier string, _ []string) {
 		}
 	}
 
+	// --- (2c) fragmenter, location merge and formatters against the Lean model
+	c19Highlight(t, r, tier, inputs)
+
 	// --- (3) fragmenter with arbitrary term locations
 	for i := 0; i < len(inputs); i++ {
 		orig := inputs[i]
